@@ -19,10 +19,10 @@ func init() {
 		Explanation: "SEE/PATH/VSA rules on the advertiser: R-C07-1 handle() returns the solicitation's source (all-nodes for ::) and a zero address otherwise; " +
 			"R-C07-2 the listener callback forwards each valid destination exactly once; R-C07-3 every request taken from the channel is handed to exactly one schedgroup.Delay whose closure sends to that iteration's own address; " +
 			"R-C07-4 the unicast delay is Int63n(maxRADelay) ns with maxRADelay == 500ms; R-C07-5 no WriteTo is reachable under unicast-only ∧ multicast destination and the destination reaches WriteTo unchanged; " +
-			"R-C07-6 counters pair with events: one received-counter per handled message, one transmit-error per failed send, one sent-counter (typed by IsMulticast) per path on which WriteTo was actually executed R-C07-5 suppression is complete: send guards, or every caller of send establishes ¬UnicastOnly or a non-multicast destination; task closures are followed through factories to the Delay call. R-C07-3 also: no function value made in schedule() captures by reference a variable assigned on every loop iteration. R-C07-5 also: a path of send on which WriteTo failed returns an error (sendWorker counts from send's result).",
+			"R-C07-6 counters pair with events: one received-counter per handled message, one transmit-error per failed send, one sent-counter (typed by IsMulticast) per path on which WriteTo was actually executed R-C07-5 suppression is complete: send guards, or every caller of send establishes ¬UnicastOnly or a non-multicast destination; task closures are followed through factories to the Delay call. R-C07-3 also: no function value made in schedule() captures by reference a variable assigned on every loop iteration. R-C07-5 also: a path of send on which WriteTo failed returns an error (sendWorker counts from send's result). R-C07-7 (decided on the scheduler library's own SSA): Schedule's notification of the monitor goroutine cannot be lost (known finding F26: it is a non-blocking send on an unbuffered channel).",
 		Assumptions: []string{
 			"Go type checker and go/ssa construction are correct",
-			"schedgroup.Group.Delay runs its closure exactly once after the delay unless the group context is cancelled first",
+			"schedgroup.Group.Delay runs its closure exactly once after the delay unless the group context is cancelled first — except for the lost wake-up recorded as known finding F26 (R-C07-7), the one part of this assumption decided on the library's own code",
 			"rand.Int63n(n) returns a value in [0,n) for n > 0",
 		},
 		NotCovered: []string{"the 500 ms bound in real time", "loss when the 16-slot request channel is full", "answers lost to re-initialisation", "goroutine interleavings"},
@@ -51,6 +51,7 @@ func runC07(c *Ctx) {
 	c07Send(c)
 	c07SendWorker(c)
 	taskOwnsItsVariables(c, "R-C07-3")
+	schedulerWakeupLatched(c, "R-C07-7")
 }
 
 func c07Handle(c *Ctx) {
@@ -609,4 +610,74 @@ func taskOwnsItsVariables(c *Ctx, rule string) {
 		}
 	}
 	c.R.Check(n >= 1, rule, c.fname(sch)+":closures", c.fname(sch), c.pos(sch.Pos()), fmt.Sprintf("%d closure value(s) made in schedule", n), ">= 1", "anchor-missing")
+}
+
+// schedulerWakeupLatched (R-C07-7, decided on the library's own SSA): a task
+// handed to the scheduler is noticed by its monitor goroutine. In
+// schedgroup.(*Group).Schedule the notification is a select with a send and a
+// default arm; that only works when the channel can hold the notification
+// while the monitor is busy (capacity >= 1). With an unbuffered channel a
+// Schedule call that lands between the monitor's trigger() and its select is
+// not noticed: the task runs at the monitor's next wake-up (the next
+// scheduled task, up to MaxRtrAdvInterval later), not after its delay.
+func schedulerWakeupLatched(c *Ctx, rule string) {
+	var sched *ssa.Function
+	var pkg *ssa.Package
+	for _, p := range c.P.SSA.AllPackages() {
+		if p.Pkg.Path() != "github.com/mdlayher/schedgroup" {
+			continue
+		}
+		pkg = p
+		if t := p.Type("Group"); t != nil {
+			sched = c.P.SSA.LookupMethod(types.NewPointer(t.Type()), p.Pkg, "Schedule")
+		}
+	}
+	if sched == nil || sched.Blocks == nil {
+		c.R.Fail(rule, "schedgroup.(*Group).Schedule", "", "", "not found in the loaded program", "the scheduler library is part of the analysed program", "anchor-missing")
+		return
+	}
+	n := 0
+	for _, b := range sched.Blocks {
+		for _, in := range b.Instrs {
+			sel, ok := in.(*ssa.Select)
+			if !ok || sel.Blocking {
+				continue
+			}
+			for _, st := range sel.States {
+				if st.Dir != types.SendOnly {
+					continue
+				}
+				// the channel: a field of Group; its capacity is that of the make stored into the field
+				u, ok := st.Chan.(*ssa.UnOp)
+				if !ok {
+					continue
+				}
+				fa, ok := u.X.(*ssa.FieldAddr)
+				if !ok {
+					continue
+				}
+				_, tn, field := an.FieldAddrName(fa)
+				capK := int64(-1)
+				for _, m := range pkg.Members {
+					f, ok := m.(*ssa.Function)
+					if !ok {
+						continue
+					}
+					for _, fs := range an.FindFieldStores(an.WithAnon(f), "github.com/mdlayher/schedgroup", tn, field) {
+						if mk, ok := fs.Store.Val.(*ssa.MakeChan); ok {
+							if k, isC := mk.Size.(*ssa.Const); isC {
+								capK = k.Int64()
+							}
+						}
+					}
+				}
+				n++
+				c.R.Check(capK >= 1, rule, "schedgroup.(*Group).Schedule:wakeup-latched", "schedgroup.(*Group).Schedule", c.pos(sel.Pos()),
+					fmt.Sprintf("non-blocking notification on Group.%s, a channel of capacity %d", field, capK),
+					"the notification of a new task cannot be lost: the channel holds it while the monitor is busy (capacity >= 1), or the send blocks",
+					"a request scheduled while the monitor goroutine is between two waits is not noticed: its RA is sent at the monitor's next wake-up, not after its delay")
+			}
+		}
+	}
+	c.R.Check(n >= 1, rule, "schedgroup.(*Group).Schedule:notification", "", "", fmt.Sprintf("%d non-blocking notification(s)", n), ">= 1", "anchor-missing")
 }
